@@ -789,4 +789,204 @@ theorem next_dead (data : Bytes) (fuel : Nat) (rd : Reader) (tl : List Step) (h 
         simp only [Reader.bufferError]
         exact ⟨Or.inr (Or.inl ⟨_, rfl⟩), f2⟩
 
+/-! ### buffers that are too small: `C08_too_small_is_error` -/
+
+/-- the token at the head of `rest` cannot be decided inside `cap` bytes -/
+def TooSmallAt (cap : Nat) (rest : Bytes) : Prop :=
+  ∃ k, k ≤ rest.length ∧ cap ≤ k ∧ readToken (rest.take k) = .error .eof
+
+theorem not_fitsAt {cap : Nat} {rest : Bytes} (h : ¬ FitsAt cap rest) : TooSmallAt cap rest := by
+  unfold FitsAt at h
+  simp only [Classical.not_forall] at h
+  obtain ⟨k, hk, he, hc⟩ := h
+  exact ⟨k, hk, by omega, he⟩
+
+/-- at a boundary whose token does not fit, a call returns the I/O error or `BufferFull`,
+never a token, a clean end or a lexer error; the position does not move -/
+theorem next_small (data : Bytes) (fuel : Nat) (rd : Reader) (h : RInv rd data) (hc : 0 < rd.buf.cap)
+    (hbad : TooSmallAt rd.buf.cap (rd.remaining data)) (hfuel : rd.src.rest.length < fuel) :
+    RInv (Reader.next fuel rd).2 data ∧ (Reader.next fuel rd).2.buf.cap = rd.buf.cap ∧
+    (Reader.next fuel rd).2.position = rd.position ∧
+    ((Reader.next fuel rd).1 = .error ⟨rd.position, .read⟩ ∨
+     (Reader.next fuel rd).1 = .error ⟨rd.position, .bufferFull⟩) := by
+  induction fuel generalizing rd with
+  | zero => omega
+  | succ fuel ih =>
+    have hrem := remaining_eq h
+    have hwl : rd.buf.window.length = rd.buf.windowLen := Buf.window_length h.buf.se h.buf.em
+    obtain ⟨k, hk1, hk2, hk3⟩ := hbad
+    have hcapm : rd.buf.cap = rd.buf.mem.length := by
+      rcases h.buf.mode with hm | hm
+      · exact hm
+      · omega
+    have hwc : rd.buf.windowLen ≤ rd.buf.cap := by
+      have := h.buf.em
+      simp only [Buf.windowLen]; omega
+    -- the window is a prefix of the undecidable prefix: still `Eof`
+    have hrt : readToken rd.buf.window = .error .eof := by
+      have hpre : (rd.remaining data).take k = rd.buf.window ++ (rd.src.rest.take (k - rd.buf.windowLen)) := by
+        rw [hrem, List.take_append, ← hwl, List.take_of_length_le (by omega)]
+      rw [hpre] at hk3
+      exact readToken_eof_prefix _ _ hk3
+    unfold Reader.next
+    rw [hrt]
+    simp only
+    rcases Buf.fillBuf_cases rd.buf rd.src data h.buf h.wf with
+      ⟨hc0, hfb⟩ | ⟨hcpos, hfull, hfb⟩ | ⟨hcpos, hlt, n, b', src', hfb, hinv', hpos', hcap', hwin', hwl', hrest', hn, hdel', hwf', hz⟩ |
+      ⟨hcpos, hlt, b', src', hfb, hinv', hpos', hcap', hwin', hwl', hrest', hdel', hwf'⟩
+    · omega
+    · rw [hfb]
+      exact ⟨h, rfl, rfl, Or.inr rfl⟩
+    · rw [hfb]
+      simp only
+      have hrd' : RInv { src := src', buf := b' } data := by
+        refine ⟨hinv', hwf', fun hc => ?_, fun _ => ?_, ?_⟩
+        · simp only at hc; omega
+        · have := h.deliv hcpos
+          simp only [Reader.position] at *
+          rw [hdel', this, hpos', hwl']; omega
+        · have := h.ple
+          simp only [Reader.position] at *
+          rw [hpos']; exact this
+      have hlenrem := remaining_length h
+      by_cases hn0 : n = 0
+      · -- the source is exhausted: then the remaining input is shorter than the buffer
+        exfalso
+        have hs := hz hn0
+        rw [hs] at hlenrem
+        simp at hlenrem
+        omega
+      · rw [if_neg hn0]
+        have hposeq : ({ src := src', buf := b' } : Reader).position = rd.position := hpos'
+        have hremeq : ({ src := src', buf := b' } : Reader).remaining data = rd.remaining data := by
+          simp only [Reader.remaining, hposeq]
+        obtain ⟨i1, i2, i3, i4⟩ := ih { src := src', buf := b' } hrd' (by simp only; omega)
+          (by simp only; rw [hcap', hremeq]; exact ⟨k, hk1, hk2, hk3⟩)
+          (by simp only; rw [hrest', List.length_drop]; omega)
+        rw [hposeq] at i3 i4
+        exact ⟨i1, by rw [i2]; exact hcap', i3, i4⟩
+    · rw [hfb]
+      simp only [Reader.bufferError]
+      have hrd' : RInv { src := src', buf := b' } data := by
+        refine ⟨hinv', hwf', fun hc => ?_, fun _ => ?_, ?_⟩
+        · simp only at hc; omega
+        · have := h.deliv hcpos
+          simp only [Reader.position] at *
+          rw [hdel', this, hpos', hwl']
+        · have := h.ple
+          simp only [Reader.position] at *
+          rw [hpos']; exact this
+      refine ⟨hrd', hcap', hpos', Or.inl ?_⟩
+      simp only [Reader.position] at *
+      rw [hpos']
+
+/-- `¬ Fits` unfolds one token at a time -/
+theorem not_fits_cases {cap : Nat} {d : Bytes} (h : ¬ Fits cap d) :
+    TooSmallAt cap d ∨ (FitsAt cap d ∧ ∃ t r, readToken d = .ok (t, r) ∧ ¬ Fits cap r) := by
+  by_cases hh : FitsAt cap d
+  · right
+    refine ⟨hh, ?_⟩
+    apply Classical.byContradiction
+    intro hne
+    apply h
+    refine Fits.mk d hh (fun t r hrt => ?_)
+    apply Classical.byContradiction
+    intro hnf
+    exact hne ⟨t, r, hrt, hnf⟩
+  · exact Or.inl (not_fitsAt hh)
+
+theorem lexAll_cons {d r : Bytes} {t : Token} (hrt : readToken d = .ok (t, r)) :
+    (lexAll d).1 = t :: (lexAll r).1 :=
+  (Lexes.det (lexAll_lexes d) (Lexes.tok hrt (lexAll_lexes r))).1
+
+theorem stream_small (data : Bytes) (fuel : Nat) (rd : Reader) (h : RInv rd data) (hc : 0 < rd.buf.cap)
+    (hnfit : ¬ Fits rd.buf.cap (rd.remaining data)) (hnf : Src.NoFaults rd.src.sched)
+    (hfuel : (rd.remaining data).length / 2 + 1 < fuel) :
+    (Reader.streamLoop fuel rd).2.1 = .err .bufferFull ∧
+    (Reader.streamLoop fuel rd).1 <+: (lexAll (rd.remaining data)).1 ∧
+    (Reader.streamLoop fuel rd).1.length < (lexAll (rd.remaining data)).1.length + 1 := by
+  induction fuel generalizing rd with
+  | zero => omega
+  | succ fuel ih =>
+    obtain ⟨n1, n2⟩ := next_nofaults rd.fuelFor rd hnf
+    rcases not_fits_cases hnfit with hbad | ⟨hfa, t0, r0, hrt0, hnf0⟩
+    · obtain ⟨_, _, _, i4⟩ := next_small data rd.fuelFor rd h hc hbad (by simp [Reader.fuelFor])
+      unfold Reader.streamLoop
+      rcases i4 with i4 | i4
+      · exact absurd i4 (n1 _)
+      · rw [show Reader.next rd.fuelFor rd = ((Reader.next rd.fuelFor rd).1, (Reader.next rd.fuelFor rd).2) from rfl, i4]
+        exact ⟨rfl, List.nil_prefix, by simp⟩
+    · obtain ⟨i1, i2, i3⟩ := next_spec data rd.fuelFor rd h (Or.inr hfa) (by simp [Reader.fuelFor])
+      unfold Reader.streamLoop
+      revert i1 i2 i3 n1 n2
+      generalize Reader.next rd.fuelFor rd = out
+      obtain ⟨res, rd'⟩ := out
+      intro n1 n2 i1 i2 i3
+      simp only at i1 i2 i3 n1 n2
+      cases res with
+      | ok o =>
+        cases o with
+        | some t =>
+          simp only [NextPost] at i3
+          obtain ⟨r, hr1, hr2⟩ := i3
+          rw [hrt0] at hr1
+          simp only [Except.ok.injEq, Prod.mk.injEq] at hr1
+          obtain ⟨rfl, rfl⟩ := hr1
+          obtain ⟨pre, hpre, hlen⟩ := readToken_consumes _ _ _ hrt0
+          have hf' : (rd'.remaining data).length / 2 + 1 < fuel := by
+            rw [hr2]
+            have : (rd.remaining data).length = pre.length + r0.length := by rw [hpre]; simp
+            omega
+          obtain ⟨j1, j2, j3⟩ := ih rd' i1 (by rw [i2]; exact hc) (by rw [i2, hr2]; exact hnf0) n2 hf'
+          simp only
+          rw [lexAll_cons hrt0]
+          rw [hr2] at j2 j3
+          exact ⟨j1, by simpa using j2, by simpa using j3⟩
+        | none =>
+          simp only [NextPost] at i3
+          rw [i3.1, readToken_nil] at hrt0
+          simp at hrt0
+      | error e =>
+        simp only [NextPost] at i3
+        obtain ⟨_, _, hk⟩ := i3
+        obtain ⟨pos, kind⟩ := e
+        cases kind with
+        | lexer le =>
+          cases le with
+          | eof => simp only at hk; rw [hk.1] at hrt0; simp at hrt0
+          | invalidRgb => simp only at hk; rw [hk] at hrt0; simp at hrt0
+        | read => exact absurd rfl (n1 pos)
+        | bufferFull => simp only at hk
+        | ub => simp only at hk
+        | fuel => simp only at hk
+
+/-! ### the documented buffer size always fits -/
+
+/-- the documented minimal buffer (`usize::from(u16::MAX) + 4`) fits every input -/
+theorem fits_of_large (cap : Nat) (hcap : 65539 ≤ cap) (d : Bytes) : Fits cap d := by
+  suffices h : ∀ n (d : Bytes), d.length ≤ n → Fits cap d from h d.length d (Nat.le_refl _)
+  intro n
+  induction n with
+  | zero =>
+    intro d hd
+    refine Fits.mk d ?_ ?_
+    · intro k hk he
+      have := readToken_eofBound _ he
+      simp at this; omega
+    · intro t r hrt
+      have : d = [] := List.eq_nil_of_length_eq_zero (by omega)
+      subst this
+      simp [readToken_nil] at hrt
+  | succ n ih =>
+    intro d hd
+    refine Fits.mk d ?_ ?_
+    · intro k hk he
+      have := readToken_eofBound _ he
+      simp at this; omega
+    · intro t r hrt
+      obtain ⟨pre, hpre, hlen⟩ := readToken_consumes _ _ _ hrt
+      apply ih
+      have : d.length = pre.length + r.length := by rw [hpre]; simp
+      omega
+
 end Jomini.BinReader
